@@ -63,6 +63,7 @@ type Result struct {
 	Terms        int                        `json:"terms"`
 	LoadError    string                     `json:"load_error,omitempty"`
 	UnknownNotes []string                   `json:"unknown_notes,omitempty"`
+	Pending      [][]exec.PendingDecision   `json:"pending,omitempty"`
 	FreshRetries int                        `json:"fresh_retries"`
 	FreshDecided int                        `json:"fresh_decided"`
 }
@@ -82,9 +83,12 @@ func main() {
 	smtlog := flag.String("smtlog", "", "")
 	params := flag.String("params", "", "k=v,k=v")
 	shard := flag.String("shard", "", "i/n")
+	budget := flag.Duration("budget", 0, "stop after this long and write the unexplored prefixes to the result (pending)")
+	resume := flag.String("resume", "", "JSON file with a list of prefixes to explore instead of starting at the root")
 	witnesses := flag.Int("witnesses", 0, "number of ok-path input models to emit for native cross-validation")
 	ov := overlayFlag{}
 	flag.Var(ov, "overlay", "virtual=real (repeatable)")
+	runInit := flag.String("runinit", "", "comma-separated packages whose init is run although normally skipped (packages replaced by a source model)")
 	cpuprof := flag.String("cpuprofile", "", "")
 	flag.Parse()
 	debug.SetGCPercent(400)
@@ -115,6 +119,11 @@ func main() {
 			os.Exit(3)
 		}
 		overlay[v] = b
+	}
+	for _, p := range strings.Split(*runInit, ",") {
+		if p != "" {
+			exec.RunInit(p)
+		}
 	}
 	cfg := &packages.Config{Mode: packages.LoadAllSyntax, Dir: *repo, BuildFlags: []string{"-tags=verif"}, Overlay: overlay}
 	pkgs, err := packages.Load(cfg, *pkgPath)
@@ -173,6 +182,21 @@ func main() {
 			}
 		}
 	}
+	e.Budget = *budget
+	if *resume != "" {
+		b, err := os.ReadFile(*resume)
+		if err != nil {
+			fmt.Fprintln(os.Stderr, "resume:", err)
+			os.Exit(3)
+		}
+		if err := json.Unmarshal(b, &e.ResumeWork); err != nil {
+			fmt.Fprintln(os.Stderr, "resume:", err)
+			os.Exit(3)
+		}
+		if e.ResumeWork == nil {
+			e.ResumeWork = [][]exec.PendingDecision{}
+		}
+	}
 	if *shard != "" {
 		fmt.Sscanf(*shard, "%d/%d", &e.ShardI, &e.ShardN)
 	}
@@ -201,6 +225,7 @@ func main() {
 	res.Samples = e.Samples
 	res.Truncated = e.Truncated
 	res.UnknownNotes = e.UnknownNotes
+	res.Pending = e.Pending
 	res.FreshRetries, res.FreshDecided = e.FreshRetries, e.FreshDecided
 	res.SolverErrors = solver.Errors
 	if len(res.SolverErrors) > 10 {
